@@ -116,23 +116,27 @@ def pl_variants(tier, N):
     """(P, L) pairs per lattice point: all P up to 8 for short runs (blocks longer than the interval), a subset for long runs."""
     if tier == 'quick':
         if N <= 4:
-            return [(1, 1), (2, 1), (3, 1), (5, 1), (8, 1), (2, 2), (3, 2)]
+            return [(1, 1), (2, 1), (3, 1), (5, 1), (8, 1), (2, 2), (3, 2), (1, 0)]
         if N <= 12:
             return [(1, 1), (3, 1)] + ([(4, 1), (2, 2)] if N in (7, 12) else [])
         return [(1, 1), (3, 1)]
     if N <= 12:
-        return [(P, 1) for P in range(1, 9)] + [(1, 2), (2, 2), (3, 2), (4, 2)]
+        return [(P, 1) for P in range(1, 9)] + [(1, 2), (2, 2), (3, 2), (4, 2), (1, 0)]
     if N <= 101:
         return [(1, 1), (3, 1), (8, 1)]
     return [(1, 1), (7, 1)]
 
 
 def fixed_cfg(t0, dt, Tend, P, L):
+    quad = 'RADAU-RIGHT'
+    if L == 0:  # single level on GAUSS nodes: the end value comes from the quadrature formula, not from the last node
+        L, quad = 1, 'GAUSS'
     return block.default_cfg(
+        quad_type=quad,
         P=P,
         K=1,
         L=L,
-        nodes=[1] if L == 1 else [2, 1],
+        nodes=([1] if quad == 'RADAU-RIGHT' else [2]) if L == 1 else [2, 1],
         predict='pfasst_burnin' if L > 1 else None,
         t0=t0,
         dt=dt,
@@ -155,6 +159,7 @@ def _run_fixed(args):
 
 def run(rep, tier):
     rep.assumptions += [
+        'L = 0 in a sample / replay denotes the single-level, single-step variant on GAUSS nodes (end value by quadrature); with several parallel steps and an end value that depends on u[0] the bitwise chaining inside a block only holds at convergence, which this one-iteration harness does not reach',
         'fixed-step part: 1-node (2/1 nodes on two levels) SDC with one iteration on testequation0d; the time bookkeeping under test does not depend on the numerical method',
         'step-count reference: x=(Tend-t0)/dt evaluated exactly on the float inputs; admissible counts ceil(x - delta)..ceil(x) with delta the largest accumulated rounding (see expected_count)',
     ]
